@@ -20,7 +20,7 @@ func init() {
 		Doc:  "name lower-casing dataflow; defaults-before-call option order; nil option / nil value guards; tag writer/reader agreement; signature rejections; struct walk",
 		Run:  runOpts,
 		Floor: map[string]int{
-			"LOWER": 4, "OPTORDER": 3, "NILOPT": 2, "NILOPT-F": 3, "REFLVALID": 3, "TAGS": 4, "REJECT": 5, "STRUCTWALK": 6,
+			"LOWER": 4, "OPTORDER": 3, "NILOPT": 2, "NILOPT-F": 3, "REFLVALID": 3, "TAGS": 4, "REJECT": 7, "STRUCTWALK": 6,
 		},
 	})
 }
@@ -1104,6 +1104,52 @@ func (c *Ctx) runReject(walker *ssa.Function) {
 			return l.Kind == "call" && l.Callee == core.RVIsValid && !l.Pol
 		})
 		c.R.Add("REJECT", "NewFunc|nil", "NewFunc", p.Pos(nf.Pos()), ok2, "a nil function value is rejected with an error", fmt.Sprintf("ok=%v", ok2))
+		// the input set is built over exactly the function type's NumIn() parameters through its In accessor, the output
+		// set over NumOut() results (less the final error, whose test is ERRPRED's business) through Out
+		if lifter != nil {
+			for _, ci := range p.RegionCalls(nf) {
+				if ci.Common().StaticCallee() != lifter || len(ci.Common().Args) != 2 {
+					continue
+				}
+				cnt, get := ci.Common().Args[0], ci.Common().Args[1]
+				acc := ""
+				for _, sv := range p.ISources(get) {
+					if mc, ok := sv.(*ssa.MakeClosure); ok {
+						if fn, ok := mc.Fn.(*ssa.Function); ok {
+							acc = strings.TrimSuffix(fn.Name(), "$bound")
+						}
+					}
+				}
+				if acc != "In" && acc != "Out" {
+					continue
+				}
+				want := "(reflect.Type).Num" + acc
+				okA, found := true, ""
+				srcs := p.ISources(cnt)
+				if len(srcs) == 0 {
+					okA = false
+				}
+				for _, sv := range srcs {
+					v := sv
+					if b, ok := v.(*ssa.BinOp); ok && b.Op == token.SUB && acc == "Out" {
+						if k, ok := core.ConstInt(b.Y); ok && k == 1 {
+							v = core.Strip(b.X)
+							for _, s2 := range core.Sources(v) {
+								v = s2
+							}
+						}
+					}
+					cl, ok := v.(*ssa.Call)
+					if !ok || core.CalleeName(cl.Common()) != want {
+						okA = false
+						found = core.Path(sv)
+					}
+				}
+				c.R.Add("REJECT", "NewFunc|"+acc+"-arity", "NewFunc", p.InstrPos(ci), okA,
+					"the "+ternary(acc == "In", "input", "output")+" set is built over exactly the function type's Num"+acc+"() positions"+ternary(acc == "Out", " (less only the final error)", ""),
+					ternary(okA, "count is Num"+acc+"()", "count may be "+found))
+			}
+		}
 	}
 	if lifter != nil && isStruct != nil {
 		// in the positional loop, a marker struct among several parameters is an error
